@@ -131,7 +131,8 @@ where
                 Ok((o, _tr)) => outs.push(Some(o)),
                 Err(Failure { stage, msg }) => {
                     // small fields: the specified refusal of query randomness is the one permitted failure
-                    if small_field && matches!(stage, Stage::VerifyInit(_)) && msg.contains("invalid query randomness") {
+                    // (decided by the independent prediction below, not by the wording of the library's error)
+                    if small_field && matches!(stage, Stage::VerifyInit(_)) {
                         let qlen = case.typ.query_rand_len();
                         let qr: Vec<T::Field> = spec_query_rands::<T::Field, X>(case.alg, np, &verify_key, &ctx, &nonce, qlen * np as usize);
                         let any_root = (0..np as usize).any(|k| modpow(qr[k * qlen + qlen - 1].val(), case.wire_poly_len as u128, p) == 1);
